@@ -3,7 +3,7 @@ import logging
 import os
 import sqlite3
 from datetime import datetime, timedelta, timezone
-from typing import Iterable, List, Optional
+from typing import Iterable, List, Optional, Tuple
 
 from aw_core.dirs import get_data_dir
 from aw_core.models import Event
@@ -51,6 +51,15 @@ INDEX_EVENTS_TABLE_STARTTIME = """
 INDEX_EVENTS_TABLE_ENDTIME = """
     CREATE INDEX IF NOT EXISTS event_index_endtime ON events(bucketrow, endtime);
 """
+
+
+def _event_to_microseconds(event: Event) -> Tuple[int, int]:
+    """Start and end of an event as integer microseconds since the epoch.
+    Exact, float arithmetic loses a microsecond for some events from 2005 onwards."""
+    epoch = datetime(1970, 1, 1, tzinfo=timezone.utc)
+    starttime = (event.timestamp - epoch) // timedelta(microseconds=1)
+    endtime = starttime + event.duration // timedelta(microseconds=1)
+    return starttime, endtime
 
 
 def _rows_to_events(rows: Iterable) -> List[Event]:
@@ -236,8 +245,7 @@ class SqliteStorage(AbstractStorage):
 
     def insert_one(self, bucket_id: str, event: Event) -> Event:
         c = self.conn.cursor()
-        starttime = event.timestamp.timestamp() * 1000000
-        endtime = starttime + (event.duration.total_seconds() * 1000000)
+        starttime, endtime = _event_to_microseconds(event)
         datastr = json.dumps(event.data)
         c.execute(
             "INSERT INTO events(bucketrow, starttime, endtime, datastr) "
@@ -263,8 +271,7 @@ class SqliteStorage(AbstractStorage):
         events_insert = [e for e in events if e.id is None]
         event_rows = []
         for event in events_insert:
-            starttime = event.timestamp.timestamp() * 1000000
-            endtime = starttime + (event.duration.total_seconds() * 1000000)
+            starttime, endtime = _event_to_microseconds(event)
             datastr = json.dumps(event.data)
             event_rows.append((bucket_id, starttime, endtime, datastr))
         query = (
@@ -275,8 +282,7 @@ class SqliteStorage(AbstractStorage):
         self.conditional_commit(len(event_rows))
 
     def replace_last(self, bucket_id, event):
-        starttime = event.timestamp.timestamp() * 1000000
-        endtime = starttime + (event.duration.total_seconds() * 1000000)
+        starttime, endtime = _event_to_microseconds(event)
         datastr = json.dumps(event.data)
         query = """UPDATE events
                    SET starttime = ?, endtime = ?, datastr = ?
@@ -298,8 +304,7 @@ class SqliteStorage(AbstractStorage):
         return cursor.rowcount == 1
 
     def replace(self, bucket_id, event_id, event) -> bool:
-        starttime = event.timestamp.timestamp() * 1000000
-        endtime = starttime + (event.duration.total_seconds() * 1000000)
+        starttime, endtime = _event_to_microseconds(event)
         datastr = json.dumps(event.data)
         query = """UPDATE events
                      SET starttime = ?,
